@@ -71,6 +71,7 @@ def run(ctx):
         batching.check_batched(ctx, fi, "wavefunctions.wave_function")
     restricted_default(ctx, "energy")
     s = Sib(ctx)
+    s.auto_helper_mirrors(["_overlap_with_single_rot", "_overlap_with_double_rot"])
     s.rhf_restricted_vs_unrestricted("energy")
     s.cisd_vs_faster()
     s.noci_vs_uhf()
